@@ -93,6 +93,9 @@ def run(ctx):
                     try:
                         r = vh.call(op="sched_scenario", setup=[], threads=threads, seed=ctx.seed * 7919, count=per, pct=pct,
                                     est=150, timeout=1200)
+                        if isinstance(r, dict) and r.get("sched_deadlock"):
+                            ctx.violation({"kind": "deadlock-under-scheduler", "where": (kind, same, mode)}, {"detail": str(r.get("detail", ""))[:1500]})
+                            continue
                         classify(ctx, r, F, exp_buf, buf, disk, ("vh", kind, same, mode), strict=False)
                         ctx.count("schedules", per)
                         ctx.extra["distinct_schedules"] = ctx.extra.get("distinct_schedules", 0) + r["distinct_schedules"]
